@@ -127,7 +127,7 @@ pub fn run(out: &mut Out, tier: &str, rng: &mut Rng) {
     }
     // ---- filters ----
     let probe_ids: Vec<u32> = {
-        let mut v = vec![0x0CB3_4A27u32, 0x18FE_CA00, 0x18EA_FF27, 0x0CFF_0227, 0x18EF_2700, 0x1CF0_0427];
+        let mut v = vec![0x0CB3_4A27u32, 0x18FE_CA00, 0x18EA_FF27, 0x0CFF_0227, 0x18EF_2700, 0x1CF0_0427, 0x18EA_FE27, 0x18EA_0027];
         let extra = if thorough { 20 } else { 4 };
         for _ in 0..extra {
             v.push(rng.next() as u32 & 0x1FFF_FFFF);
@@ -169,6 +169,42 @@ pub fn run(out: &mut Out, tier: &str, rng: &mut Rng) {
                     txt[3] = d.to_string();
                 }
                 cands.push((it, txt.join(".")));
+            }
+        }
+        // every constructor of an entry, with boundary values: `with_*` builds what `default().set_*` builds
+        for field in 0..4u32 {
+            let own: u32 = match field {
+                0 => id.priority() as u32,
+                1 => id.pgn_raw(),
+                2 => id.source_address() as u32,
+                _ => id.destination_address().unwrap_or(id.pdu_specific()) as u32,
+            };
+            let top: u32 = match field { 0 => 7, 1 => 0x3FFFF, _ => 0xFF };
+            let mut vals = vec![0u32, 1, top, top - 1, own, own.wrapping_add(1) & top, own.wrapping_sub(1) & top];
+            vals.sort();
+            vals.dedup();
+            for v in vals {
+                for ctor in [true, false] {
+                    let it = match (field, ctor) {
+                        (0, true) => FilterItem::with_priority(v as u8),
+                        (0, false) => FilterItem::default().set_priority(v as u8),
+                        (1, true) => FilterItem::with_pgn(v),
+                        (1, false) => FilterItem::default().set_pgn(v),
+                        (2, true) => FilterItem::with_source_address(v as u8),
+                        (2, false) => FilterItem::default().set_source_address(v as u8),
+                        (_, true) => FilterItem::with_destination_address(v as u8),
+                        (_, false) => FilterItem::default().set_destination_address(v as u8),
+                    };
+                    let mut txt = vec!["*".to_string(); 4];
+                    txt[field as usize] = v.to_string();
+                    for accept in [true, false] {
+                        let mut f = if accept { Filter::accept() } else { Filter::reject() };
+                        f.push(it);
+                        let r = f.matches(&id);
+                        out.count(&format!("flt ctor {}", if ctor { "with" } else { "set" }));
+                        out.case(&format!("flt {} {} {:08X}", if accept { "A" } else { "R" }, txt.join("."), idraw), if r { "1" } else { "0" }, true);
+                    }
+                }
             }
         }
         let nc = cands.len();
